@@ -29,7 +29,7 @@ def check(run):
     # 3. spec -> code replay
     r = run.tlc("Verify", "Verify_emit_quick.cfg" if quick else "Verify_emit_thorough.cfg",
                 raw_cases=True, expect_cases=True, timeout=3000)
-    bad = ve.replay(run, r, opts={"strip": False, "broken_stdout": 0.15})
+    bad = ve.replay(run, r, opts={"strip": False})
     run.exhaustive = True
     for o in bad:
         if owns(o):
@@ -42,6 +42,14 @@ def check(run):
     for o in ve.replay(run, rt, opts={"strip": False}):
         if owns(o):
             run.violation(ve.coarse_sig(o) + f" threshold-kind={o['case'].get('tk')}", {"kind": "verify_signable", "fine_signature": ve.sig_of(o), **o})
+        else:
+            run.note_drift("outside Allowed but owned by another property: " + ve.coarse_sig(o))
+    # 3c. the stream the notices go to is dead (Verify.tla, `out`): the call may end in an I/O error, nothing else changes
+    run.mutant("Verify", "Verify_mut_dead_stream.cfg", expect="Sound", timeout=600)
+    ro = run.tlc("Verify", "Verify_emit_out.cfg", raw_cases=True, expect_cases=True, timeout=3000)
+    for o in ve.replay(run, ro, opts={"strip": False}):
+        if owns(o):
+            run.violation(ve.coarse_sig(o), {"kind": "verify_signable", "fine_signature": ve.sig_of(o), **o})
         else:
             run.note_drift("outside Allowed but owned by another property: " + ve.coarse_sig(o))
     # 4. code -> spec traces: random adversarial envelopes judged by TLC
